@@ -98,7 +98,13 @@ func (c *azBlobCache) Get(ctx context.Context, kind cache.EntryKind, hash string
 	rc = resp.NewRetryReader(ctx, &azblob.RetryReaderOptions{MaxRetries: 2})
 
 	if kind == cache.CAS && c.v2mode {
-		return casblob.ExtractLogicalSize(rc)
+		lrc, size, err := casblob.ExtractLogicalSize(rc)
+		if err != nil {
+			// No reader is returned in this case, so nobody else can
+			// close the object (and release its connection).
+			_ = rc.Close()
+		}
+		return lrc, size, err
 	}
 
 	if resp.ContentLength != nil {
